@@ -27,9 +27,26 @@ def parse_children(text):
 class C06Conservation(Checker):
     """After every step: ordered view is a permutation (by identity) of the insertion view, the
     insertion view equals the shadow list, parents are right, removed children have no parent;
-    when serialisation succeeds the output has exactly one element per shadow child."""
+    when serialisation succeeds the output has exactly one element per shadow child; a replacement by a
+    child of the same name takes the replaced child's place in the schema-ordered view ("replacements
+    substituted")."""
+
+    def before(self, w, op):
+        self.pre_od = None
+        if op['op'] == 'REPLACE' and 'raw' not in op and not op.get('foreign'):
+            node = w.node(op['p'])
+            if node is not None and node.xsd_check and op['i'] < len(node.children) and \
+                    node.children[op['i']].name == (op.get('c') or {}).get('name'):
+                self.pre_od = (node, w.cheap(node)['od'])
 
     def after(self, w, op, ev):
+        if getattr(self, 'pre_od', None) is not None and ev['r'] == 'ok':
+            node, od0 = self.pre_od
+            od1 = w.cheap(node)['od']
+            if all(isinstance(x, int) for x in od0) and sorted(od0) == list(range(len(node.children))) and od1 != od0:
+                w.violate('C06', 'replacement-not-in-place', {'elem': node.name, 'ordered_before': od0, 'ordered_after': od1,
+                                                              'replaced_index': op['i']})
+                return
         if op['op'] not in MUTATING or ev['r'] == 'skip':
             return
         d = _doc_of(op)
@@ -241,6 +258,20 @@ class C12Unique(Checker):
     with 'c12': {'arr': [...]} on the last add."""
 
     def after(self, w, op, ev):
+        ser = op.get('c12ser')
+        if ser and ser.get('usable') and ev['r'] != 'skip':
+            node = w.node(op['p'])
+            if node is None or sorted(c.name for c in node.children) != sorted(ser['arr']):
+                return
+            w.count('c12.unique_serialisations_judged')
+            suffix = '[ic]' if op.get('ic') else ''
+            if ev['r'] == 'exc':
+                w.violate('C12', 'unique-arrangement-not-serialised' + suffix, {'elem': node.name, 'arrangement': ser['arr'], 'exc': ev['t']})
+            else:
+                et = parse_children(w.text)
+                if et is not None and [k.tag for k in et] != list(ser['arr']):
+                    w.violate('C12', 'unique-arrangement-misordered', {'elem': node.name, 'got': [k.tag for k in et], 'want': list(ser['arr']), 'via': 'to_string' + suffix})
+            return
         tag = op.get('c12')
         if not tag:
             return
@@ -840,6 +871,16 @@ class C18Unchecked(Checker):
 
     def after(self, w, op, ev):
         k = op['op']
+        if k == 'TO_STRING' and ev['r'] == 'ok' and 'p' in op:
+            node = w.node(op['p'])
+            if node is not None and node.xsd_check and any(not n.xsd_check for n in node.walk()):
+                et = parse_children(w.text)
+                if et is not None:
+                    w.count('c18.mixed_outputs_judged')
+                    bad = check_tree_valid(node, et, top=True)
+                    tainted_names = {n.name for n in node.walk() if w.c18_tainted(n)}
+                    if bad and bad[1].get('elem') != node.name and bad[1].get('elem') not in tainted_names:
+                        w.violate('C18', 'nested-checked-serialised-incomplete', dict(bad[1], serialised_from=node.name))
         if k == 'WRITE' and ev['r'] != 'skip':
             root = w.docs.get(op['doc'])
             if root is not None and not root.xsd_check and ev['r'] == 'exc' and not isinstance(w.last_exc, OSError):
@@ -882,6 +923,14 @@ class C18Unchecked(Checker):
                 # checked node somewhere below an unchecked ancestor
                 if node.fully_checked_path():
                     return
+                if k in ('REMOVE', 'REPLACE') and ev['r'] == 'ok':
+                    # from here on the matcher's removal / replacement defects (C07, C11, C01 findings) would be
+                    # blamed on nesting: this node is no longer judged by C18
+                    w._tainted = getattr(w, '_tainted', set())
+                    w._tainted.add(node.sid)
+                    return
+                if w.c18_tainted(node):
+                    return
                 m = spec.model_for_element(node.name)
                 if k == 'ADD' and op.get('fwd') is None and ev['r'] == 'ok' and m is not None:
                     w.count('c18.nested_checked_adds_judged')
@@ -893,15 +942,6 @@ class C18Unchecked(Checker):
                     if et is not None and not m.accepts([x.tag for x in et]):
                         if not w.c18_tainted(node):
                             w.violate('C18', 'nested-checked-serialised-incomplete', {'elem': node.name, 'word': [x.tag for x in et]})
-        if k == 'TO_STRING' and ev['r'] == 'ok' and 'p' in op:
-            node = w.node(op['p'])
-            if node is not None and node.xsd_check and any(not n.xsd_check for n in node.walk()):
-                et = parse_children(w.text)
-                if et is not None:
-                    w.count('c18.mixed_outputs_judged')
-                    bad = check_tree_valid(node, et, top=True)
-                    if bad and bad[1].get('elem') != node.name:
-                        w.violate('C18', 'nested-checked-serialised-incomplete', dict(bad[1], serialised_from=node.name))
         if op.get('c18twin') and ev['r'] == 'ok' and k == 'TO_STRING':
             # byte-identity with the checked twin: program serialises the unchecked doc then the checked
             # twin (same children supplied in a schema-valid order)
@@ -1059,6 +1099,14 @@ class C17Write(Checker):
                 w.violate('C17', 'content-differs', {'state': now[0], 'encoding': enc})
                 return
             got = bytes.fromhex(now[1])
+            if got == want:
+                # ... and it is what to_string() says now, after the write, too
+                root = w.docs.get(op['doc'])
+                ts2 = infork(lambda: w._quiet(lambda: w.verdict(root.el, bool(op.get('ic')))))
+                if ts2[0] == 'text' and ts2[1] != ts[1]:
+                    w.violate('C17', 'content-differs', {'encoding': enc, 'what': 'the file holds a serialisation that to_string() no longer returns after the write',
+                                                          'diff': _textdiff(ts, ts2)})
+                return
             if got != want:
                 try:
                     same_in_locale = got.decode(enc) == DECL + ts[1]
